@@ -25,14 +25,15 @@ SetNa(a, sel) ==
             !.dtype = IF a.dtype \in {"i", "b"} /\ (\E k \in 1..Len(sel) : sel[k]) THEN "f" ELSE a.dtype]
 
 (* ---------- scenarios ---------- *)
-DimNames == <<"x", "y", "z">>
-Pool == << <<4, 2, 6>>, <<2, 6>>, <<6, 2>> >>
-Shapes == {<<3>>, <<2>>, <<1>>, <<3, 2>>, <<2, 2>>, <<1, 2>>} \cup (IF Big THEN {<<3, 2, 2>>, <<2, 1, 2>>} ELSE {<<2, 2, 2>>})
+DimNames == <<"x", "y", "z", "w">>
+Pool == << <<4, 2, 6, 8>>, <<2, 6, 4>>, <<6, 2>>, <<4, 8>> >>
+Shapes == {<<3>>, <<2>>, <<1>>, <<3, 2>>, <<2, 2>>, <<1, 2>>}
+          \cup (IF Big THEN {<<3, 2, 2>>, <<2, 1, 2>>, <<4>>, <<2, 3>>, <<4, 2>>, <<2, 2, 1, 2>>, <<2, 3, 2>>} ELSE {<<2, 2, 2>>})
 Arr(shape, dt) == Fresh(SubSeq(DimNames, 1, Len(shape)), [i \in 1..Len(shape) |-> "i"],
                         [i \in 1..Len(shape) |-> SubSeq(Pool[i], 1, shape[i])], [i \in 1..Len(shape) |-> i], dt, 7, 100)
 Patterns(a) ==
   LET n == Len(a.cells)  cs == Coords(Shape(a))
-  IN IF n <= 4 THEN SUBSET (1..n)
+  IN IF n <= (IF Big THEN 6 ELSE 4) THEN SUBSET (1..n)
      ELSE {{}, {1}, {n}, 1..n, {k \in 1..n : k % 3 = 0}, {2, 3}}
           \cup {{k \in 1..n : cs[k][d] = 1} : d \in 1..NDim(a)} \cup {{k \in 1..n : cs[k][d] # 1} : d \in 1..NDim(a)}
 WithNaN(a, S) == [a EXCEPT !.cells = [k \in 1..Len(a.cells) |-> IF k \in S THEN NaN ELSE a.cells[k]]]
